@@ -31,3 +31,19 @@ pub assume_specification<T: Ord>[ std::cmp::max::<T> ](a: T, b: T) -> (r: T)
 pub assume_specification<T: PartialEq, A: std::alloc::Allocator>[ Vec::<T, A>::dedup ](v: &mut Vec<T, A>)
     ensures final(v)@.len() <= old(v)@.len(), old(v)@.len() > 0 ==> (final(v)@.len() > 0 && final(v)@[0] == old(v)@[0]),
         forall|j: int| 0 <= j < final(v)@.len() ==> old(v)@.contains(#[trigger] final(v)@[j]);
+/// Slice / Vec reordering and filtering (assumed std contracts, deliberately partial: same elements, order unspecified).  A change
+/// that starts reordering or filtering a vector is analysed against these contracts instead of being unanalysable.
+pub assume_specification<T, K: Ord, F: FnMut(&T) -> K>[ <[T]>::sort_by_key::<K, F> ](s: &mut [T], f: F)
+    ensures final(s)@.len() == old(s)@.len(), final(s)@.to_multiset() == old(s)@.to_multiset();
+pub assume_specification<T, K: Ord, F: FnMut(&T) -> K>[ <[T]>::sort_unstable_by_key::<K, F> ](s: &mut [T], f: F)
+    ensures final(s)@.len() == old(s)@.len(), final(s)@.to_multiset() == old(s)@.to_multiset();
+pub assume_specification<T, F: FnMut(&T, &T) -> std::cmp::Ordering>[ <[T]>::sort_by::<F> ](s: &mut [T], f: F)
+    ensures final(s)@.len() == old(s)@.len(), final(s)@.to_multiset() == old(s)@.to_multiset();
+pub assume_specification<T: Ord>[ <[T]>::sort ](s: &mut [T])
+    ensures final(s)@.len() == old(s)@.len(), final(s)@.to_multiset() == old(s)@.to_multiset();
+pub assume_specification<T: Ord>[ <[T]>::sort_unstable ](s: &mut [T])
+    ensures final(s)@.len() == old(s)@.len(), final(s)@.to_multiset() == old(s)@.to_multiset();
+pub assume_specification<T>[ <[T]>::reverse ](s: &mut [T])
+    ensures final(s)@ == old(s)@.reverse();
+pub assume_specification<T, A: std::alloc::Allocator, F: FnMut(&T) -> bool>[ Vec::<T, A>::retain::<F> ](v: &mut Vec<T, A>, f: F)
+    ensures final(v)@.len() <= old(v)@.len(), forall|j: int| 0 <= j < final(v)@.len() ==> old(v)@.contains(#[trigger] final(v)@[j]);
